@@ -145,6 +145,32 @@ def _run(ctx, uc, lmp, quick):
             tv = uc.unit[name]
             if not (close(v, tv) and close(v2, 2 * tv) and close(v3, tv / 4) and close(back, 1.5)):
                 ctx.violation('unit expression evaluated with the wrong precedence/value', 'unit name %r -> %r, table value %r' % (name, v, tv))
+    # the other public entry points agree with set_in_units / get_in_units: set_literal('value unit') for scalar and array literals,
+    # and model(value, unit, error=...) read back with value_unit / error_unit (same shape, same numbers)
+    for kw in cfgs[:2]:
+        uc.reset_units(**kw)
+        for unit_ in ('nm', 'eV/angstrom^3', 'kg*m/s^2', 'GPa'):
+            for lit, arr in (('1.5', 1.5), ('[1.0, 2.5, -4.0]', [1.0, 2.5, -4.0]), ('[[1.0, 2.0], [3.0, -0.5]]', [[1.0, 2.0], [3.0, -0.5]])):
+                ctx.count()
+                ctx.nontriv(('literal', unit_, lit, json.dumps(kw, sort_keys=True)))
+                try:
+                    got = uc.set_literal(lit + ' ' + unit_)
+                    want = uc.set_in_units(np.array(arr), unit_)
+                    if np.shape(got) != np.shape(want) or not close(np.ravel(got)[0], np.ravel(want)[0]) or not np.allclose(got, want, rtol=1e-12):
+                        ctx.violation('set_literal disagrees with set_in_units', '%r %s -> %r expected %r' % (lit, unit_, got, want))
+                except Exception as e:
+                    ctx.violation('set_literal raised %s on a well-formed literal' % excname(e), '%r %s %s' % (lit, unit_, repr(e)[:100]))
+            for shp in ((), (3,), (3, 3), (2, 3, 3)):
+                ctx.count()
+                val_ = np.arange(1.0, 1.0 + int(np.prod(shp or (1,)))).reshape(shp) * 0.25
+                err_ = val_ * 0.125 + 0.5
+                try:
+                    m_ = uc.model(uc.set_in_units(val_, unit_), unit_, error=uc.set_in_units(err_, unit_))
+                    v2, e2 = uc.value_unit(m_), uc.error_unit(m_)
+                    if np.shape(v2) != shp or np.shape(e2) != shp or not np.allclose(uc.get_in_units(v2, unit_), val_, rtol=1e-12) or not np.allclose(uc.get_in_units(e2, unit_), err_, rtol=1e-12):
+                        ctx.violation('value / error of a model are not read back with their shape and values', 'shape %s unit %s: value %s error %s' % (shp, unit_, np.shape(v2), np.shape(e2)))
+                except Exception as e:
+                    ctx.violation('model / value_unit / error_unit raised %s' % excname(e), 'shape %s unit %s %s' % (shp, unit_, repr(e)[:100]))
     ctx.sample({'kind': 'S->C parse case', **[c for c in cases if c['kind'] == 'parse' and '(' in c['s'] and '^' in c['s']][5]})
     # ---- histories of resets ---------------------------------------------------------------------------------
     hists = []
